@@ -572,8 +572,20 @@ def monitor_violation(ctx, res, what):
 def suite_object(ctx, maxhist, faults, small, backend="idn2", wrap=True, graph=True, pool=None, valgrind_n=0, variant="default"):
     pool = pool or POOL
     poolvec = make_env(ctx, pool)
-    if graph:   # the whole state graph: histories of every length
-        tlc_ok(ctx, "MC_Eav", EAV_CFG % (backend, 0, "TRUE" if faults else "FALSE", "TRUE" if small else "FALSE"), timeout=3000)
+    if graph:   # the whole state graph: histories of every length; -coverage: every action of the object must have been taken
+        rg = tlc_ok(ctx, "MC_Eav", EAV_CFG % (backend, 0, "TRUE" if faults else "FALSE", "TRUE" if small else "FALSE"), timeout=3000,
+                    coverage=True)
+        import re
+        acts = {}
+        for line in open(rg["out"], errors="replace"):
+            m = re.match(r"<(Do\w+) line \d+, col \d+ to line \d+, col \d+ of module MC_Eav>: (\d+):(\d+)", line.strip())
+            if m:
+                acts[m.group(1)] = {"distinct": int(m.group(2)), "taken": int(m.group(3))}
+        if acts:
+            ctx.cov.setdefault("action_coverage", {})["MC_Eav/%s%s" % (backend, "/faults" if faults else "")] = acts
+            never = [a for a, c in acts.items() if c["taken"] == 0]
+            if never:
+                raise Infra("vacuity: actions never taken in MC_Eav: %s" % never)
     if maxhist:
         r = tlc_ok(ctx, "MC_Eav", EAV_CFG % (backend, maxhist, "TRUE" if faults else "FALSE", "TRUE"), timeout=3000)
         sample_vectors(ctx, r["out"])
